@@ -29,8 +29,10 @@ class verb(Command):
     def invoke(self, tex):
         """ Parse for matching delimiters """
         self.ownerDocument.context.push(self)
-        self.parse(tex)
+        # The delimiter must be read with the verbatim category codes too,
+        # so they have to be in force before looking for the optional *
         self.ownerDocument.context.setVerbatimCatcodes()
+        self.parse(tex)
         # See what the delimiter is
         for endpattern in tex:
             self.delimiter = endpattern
